@@ -76,3 +76,34 @@ package generator
 //@ ensures schema.Format != binary && vs_overridden(schema.Extensions) ==> result == vs_override(schema.Extensions)
 //@ ensures schema.Format != binary && !vs_overridden(schema.Extensions) && isRequired && !schema.ReadOnly ==> result
 //@ ensures schema.Format != binary && !vs_overridden(schema.Extensions) && schema.ReadOnly ==> !result
+
+//@ func (*LanguageOpts).Init
+//@ props C01
+//@ safety
+//@ modifies &l.initialized, &l.reservedWordsSet
+//@ requires l != nil && (l.initialized ==> vs_reservedSetOK(l))
+//@ ensures l.initialized && vs_reservedSetOK(l)
+//@ loop 1 invariant l != nil && l.reservedWordsSet != nil && vs_fresh(l.reservedWordsSet) && vs_all(func(w string) bool { return vs_has(l.reservedWordsSet, w) == vs_inWords(l.ReservedWords, vs_done(1), w) })
+
+//@ func (*LanguageOpts).MangleVarName
+//@ props C01
+//@ safety
+//@ modifies nothing
+//@ requires l != nil && vs_reservedSetOK(l) && vs_noneEndsInVar(l.ReservedWords)
+//@ ensures !vs_inWords(l.ReservedWords, len(l.ReservedWords), result)
+//@ ensures result == swag.ToVarName(name) || result == swag.ToVarName(name)+"Var"
+
+//@ func (*LanguageOpts).MangleName
+//@ props C01
+//@ safety
+//@ modifies nothing
+//@ requires l != nil && vs_reservedSetOK(l)
+//@ ensures !vs_inWords(l.ReservedWords, len(l.ReservedWords), swag.ToFileName(name)) ==> result == name
+//@ ensures vs_inWords(l.ReservedWords, len(l.ReservedWords), swag.ToFileName(name)) ==> result == name+"_"+suffix
+
+//@ func GoLangOpts
+//@ props C01
+//@ safety
+//@ modifies nothing
+//@ ensures result != nil && vs_fresh(result) && result.initialized && vs_reservedSetOK(result) && vs_noneEndsInVar(result.ReservedWords)
+//@ ensures vs_all(func(w string) bool { return vs_isGoKeyword(w) ==> vs_inWords(result.ReservedWords, len(result.ReservedWords), w) })
